@@ -28,6 +28,11 @@ func checkC13(c *Ctx) {
 	c.R.Extra["functions_in_scope"] = n
 	c.RuleB("B.term", reach, chain, nil)
 	c.RuleT("", inScope, sinkKindsAll)
+	c.ruleWidthDecode("T8", inScope)
+	c.ruleAssert("B.assert", inScope)
+	c.ruleLockPairing("R.lock", inScope)
+	c.ruleHashAvailable("B.hash", inScope)
+	c.ruleNoMaterialise("T1.stream", inScope)
 	c.RuleN("N.nil", inScope)
 	c.RuleR("R.loop", inScope)
 	c.scopeGuard("scope", n, 25, "library functions reachable from the exported API of authenticode and pkcs7")
@@ -47,6 +52,10 @@ func checkC14(c *Ctx) {
 	// the property's static quantifier: every terminator site of the library
 	c.RuleB("B.term", nil, nil, nil)
 	c.RuleT("", inScope, sinkKindsAll)
+	c.ruleWidthDecode("T8", inScope)
+	c.ruleAssert("B.assert", inScope)
+	c.ruleLockPairing("R.lock", inScope)
+	c.ruleHashAvailable("B.hash", inScope)
 	c.RuleN("N.nil", inScope)
 	c.RuleR("R.loop", inScope)
 	c.scopeGuard("scope", n, 60, "library functions reachable from the exported decoders")
